@@ -341,11 +341,15 @@ func (fox *Router) NewRoute(pattern string, handler HandlerFunc, opts ...RouteOp
 		return nil, err
 	}
 
+	// Clip the capacity so that route options appending their own middleware always copy the slice instead of
+	// writing into the backing array shared with the router (and with routes created concurrently).
+	mws := fox.mws[:len(fox.mws):len(fox.mws)]
+
 	rte := &Route{
 		clientip:              fox.clientip,
 		hbase:                 handler,
 		pattern:               pattern,
-		mws:                   fox.mws,
+		mws:                   mws,
 		redirectTrailingSlash: fox.redirectTrailingSlash,
 		ignoreTrailingSlash:   fox.ignoreTrailingSlash,
 		psLen:                 n,
